@@ -470,7 +470,8 @@ Record contact := {
   c_ticket : bool;
   c_created : Z;
   c_last_seen : option Z;
-  c_fields : list (text * (ftype * fvalue)) (* non-nil entries of Contact.fields: key -> (field.Type(), value) *)
+  c_fields : list (text * (ftype * fvalue)); (* non-nil entries of Contact.fields: key -> (field.Type(), value) *)
+  c_groups : list text                      (* names of the groups the contact is in; Contact.QueryProperty does NOT look at them *)
 }.
 
 Fixpoint assoc {A} (k : text) (l : list (text * A)) : option A :=
